@@ -340,6 +340,8 @@ pub fn default_natives() -> Vec<NativeSpec> {
         n("reenter1", 2, Reenter),
         n("reenter2", 3, Reenter),
         n("try_call", 1, TryReenter),
+        n("try_call1", 2, TryReenter),
+        n("try_call1_keep", 2, TryReenter),
     ]
 }
 
@@ -885,7 +887,7 @@ impl<'a> Interp<'a> {
             }
             NativeBehaviour::TryReenter => {
                 let f = args[0].clone();
-                match self.call_value(&f, vec![], path) {
+                match self.call_value(&f, args[1..].to_vec(), path) {
                     Ok(v) => Ok(v),
                     Err(Flow::Error(_)) => Ok(V::Nil),
                     Err(other) => Err(other),
